@@ -43,6 +43,22 @@ static inline Bytes build_sfnt(const std::map<u32, Bytes> &tables) {
     return out;
 }
 
+// Same container, other legal layout: table data in a seeded random order, 4-byte aligned, and no padding after the last table
+// (the file ends with the last byte of whichever table comes last).
+static inline Bytes build_sfnt_layout(const std::map<u32, Bytes> &tables, u64 seed) {
+    std::vector<u32> order; for (auto &t : tables) order.push_back(t.first);
+    Rng r(seed); for (size_t i = order.size(); i > 1; --i) std::swap(order[i - 1], order[r.below(u32(i))]);
+    Bytes out; unsigned n = unsigned(tables.size());
+    put32(out, 0x00010000); put16(out, n);
+    unsigned es = 0, p2 = 1; while (p2 * 2 <= n) { p2 *= 2; ++es; }
+    put16(out, p2 * 16); put16(out, es); put16(out, n * 16 - p2 * 16);
+    std::map<u32, size_t> off; size_t o = 12 + size_t(n) * 16;
+    for (size_t k = 0; k < order.size(); ++k) { off[order[k]] = o; o += tables.find(order[k])->second.size(); if (k + 1 < order.size()) o = (o + 3) & ~size_t(3); }
+    for (auto &t : tables) { put32(out, t.first); put32(out, 0); put32(out, u32(off[t.first])); put32(out, u32(t.second.size())); }
+    for (size_t k = 0; k < order.size(); ++k) { const Bytes &b = tables.find(order[k])->second; while (out.size() < off[order[k]]) out.push_back(0); out.insert(out.end(), b.begin(), b.end()); }
+    return out;
+}
+
 struct Range { size_t lo, hi; const char *what; };   // [lo,hi)
 
 // Structure-bearing ranges of a table, computed by simple independent walkers. Best effort: rot aimed
@@ -112,7 +128,7 @@ static inline void silf_ranges(const Bytes &t, std::vector<Range> &out) {
 
 
 // ---------------------------------------------------------------------------------------------- Silf bytecode walker
-struct PassInfo { size_t head; size_t rc_lo, rc_hi, ac_lo, ac_hi; };      // absolute offsets in the Silf table
+struct PassInfo { size_t head; size_t rc_lo, rc_hi, ac_lo, ac_hi; size_t st_lo = 0, st_hi = 0; unsigned ncols = 0, nstates = 0; };      // absolute offsets in the Silf table (st_*: FSM transition table)
 static inline void silf_passes(const Bytes &t, std::vector<PassInfo> &out) {
     out.clear();
     std::vector<Range> rg; silf_ranges(t, rg);
@@ -131,7 +147,18 @@ static inline void silf_passes(const Bytes &t, std::vector<PassInfo> &out) {
             // the pass ends where the next structure begins: take the next pass head or the table end
             size_t pe = t.size(); for (auto &q : rg) if (!strcmp(q.what, "pass-head") && q.lo > po && q.lo < pe) pe = q.lo;
             if (rc > ac || ac > pe || rc < po) continue;
-            out.push_back({po, rc, ac, ac, pe});
+            PassInfo pi; pi.head = po; pi.rc_lo = rc; pi.rc_hi = ac; pi.ac_lo = ac; pi.ac_hi = pe;
+            {   // walk the pass tables down to the FSM transition table (same order as the loader reads them)
+                unsigned numRules = be16(&t[po + 4]), numStates = be16(&t[po + 24]), numTrans = be16(&t[po + 26]), numSucc = be16(&t[po + 28]), numCols = be16(&t[po + 30]), numRange = be16(&t[po + 32]);
+                size_t q = po + 40 + 6 * size_t(numRange);                     // ranges
+                size_t orm = q; q += 2 * size_t(numSucc + 1);                  // oRuleMap
+                if (q <= pe && orm + 2 * size_t(numSucc) + 2 <= t.size()) {
+                    unsigned numEntries = be16(&t[orm + 2 * size_t(numSucc)]); q += 2 * size_t(numEntries);          // ruleMap
+                    if (q + 2 <= pe) { unsigned minPre = t[q], maxPre = t[q + 1]; q += 2; if (maxPre >= minPre) { q += 2 * size_t(maxPre - minPre + 1); q += 2 * size_t(numRules); q += numRules; q += 1 + 2; q += 2 * size_t(numRules + 1) * 2;
+                        size_t st = q, se = st + 2 * size_t(numTrans) * numCols; if (se <= rc && se <= pe && numCols) { pi.st_lo = st; pi.st_hi = se; pi.ncols = numCols; pi.nstates = numStates; } } }
+                }
+            }
+            out.push_back(pi);
         }
         break;      // first subtable only (every corpus font has one)
     }
